@@ -21,12 +21,14 @@ PROP = "C16"
 
 SPACES = {
     "quick": [dict(nv=3, maxl=2, classes=("D", "U")),
-              dict(nv=3, maxl=3, minl=3, classes=("D", "U"))],
+              dict(nv=3, maxl=3, minl=3, classes=("D", "U")),
+              dict(nv=3, maxl=2, classes=("D", "U"), twin=True)],      # the last vertex carries the first one's uid
     "thorough": [dict(nv=3, maxl=3, classes=("D", "U", "Ds", "Us")),
                  dict(nv=4, maxl=3, minl=3, classes=("D", "U")),
                  dict(nv=3, maxl=2, classes=("D", "U"), mutations=True),
                  dict(nv=3, maxl=4, minl=4, classes=("D", "U")),
-                 dict(nv=2, maxl=6, minl=4, classes=("D", "U"))],
+                 dict(nv=2, maxl=6, minl=4, classes=("D", "U")),
+                 dict(nv=3, maxl=3, classes=("D", "U"), twin=True)],
 }
 
 
